@@ -1,9 +1,10 @@
 (* C03_Circular.v — what is proved about the non-linear layouts (Euler-circular rows,
    quaternion blocks) at the MathComp instance, with the transcendental functions
    uninterpreted: the first sigma point of every component, for EVERY layout.
-   Partial: moment preservation on circular / quaternion rows needs the scalar
+   Moment preservation and affine exactness on circular / quaternion rows need the scalar
    facts wrap x = x (mod 2 pi), atan2 polar form (C19) and the quaternion exp/log
-   round trip (C18); it is covered by the correspondence check and the oracle only. *)
+   round trip (C18): they are proved over Coq's reals in C03_Euler.v / C03_Spread.v /
+   C03_Quat.v (statements in Properties_C03_Real.v). *)
 Require Import ZArith List Bool Lia.
 Require Import BFL.Ops BFL.C03_Model.
 From mathcomp Require Import all_ssreflect all_algebra.
